@@ -17,8 +17,11 @@ def run(ctx):
     exprs += core.generate(ctx, "Gen_Expr.tla", "Gen_Expr_tmpl.cfg", 0, 0, ctx.seed, bfs=True, timeout=900)
     d = ctx.specdir("gen_scan_prof")
     docs = core.tlc(ctx, d, "Gen_Profile.tla", "Gen_Profile_rand.cfg", timeout=900, extra=["-seed", str(ctx.seed * 1000 + 17)]).behaviours
+    fors = core.generate(ctx, "Gen_Expr.tla", "Gen_Expr_for.cfg", 0, 0, ctx.seed, bfs=True, timeout=900)     # tuple / object for expressions
     if quick:
-        exprs = rng.sample(exprs, min(len(exprs), 1000)); docs = rng.sample(docs, min(len(docs), 250))
+        exprs = rng.sample(exprs, min(len(exprs), 850)) + rng.sample(fors, min(len(fors), 250)); docs = rng.sample(docs, min(len(docs), 250))
+    else:
+        exprs += fors
     jsons = [[{"json": i}] for i in range(300 if quick else 3000)]
     ctx.say("  inputs: %d token-kind sequences of the mode machine (all of length %d%s) + %d random walks, %d expression / template trees, %d profile documents, %d JSON documents; each as written and in %d seeded mutations (truncation, byte change, insertion, repetition, nesting, random bytes)"
             % (len(seqs), 3 if quick else 4, ", sampled" if quick else "", len(walks), len(exprs), len(docs), len(jsons), 3 if quick else 10))
